@@ -32,10 +32,14 @@ from .core import MachineryError
 HEAP = "3g"      # the state spaces are small; a modest JVM heap keeps TLC out of the way of the OOM killer on a shared machine
 CTX_VALS = ["u", "w"]
 ALL_OPS = ["render", "renderdef", "invbody", "invdef", "invclosure", "inv", "set", "get", "toggle"]
-DEVS = ["regions-by-invalidate", "ns-sanitised", "inline-bf"]
+DEVS = ["regions-by-invalidate", "ns-sanitised", "inline-bf", "block-names-hoisted"]
 TIMEOUTS = ["7", "34", "3600", "7200", "86400", "${60*60}"]
 LONG_TIMEOUTS = ["3600", "7200", "86400", "${60*60}"]
 SIG = {
+    "NamesOnlyOnMiss": ("strict-undefined-cached-block-needs-body-names-on-replay",
+                        "with strict_undefined=True the names that only the body of a cached <%block> (named or anonymous) reads are looked up "
+                        "by the ENCLOSING render function on every render: a render whose context lacks such a name raises NameError although "
+                        "the block's entry exists and would be replayed (cached defs, nested defs and pages replay fine)"),
     "ArgsPrecedence": ("invalidate-before-first-render-freezes-def-regions",
                        "invalidate_def/invalidate_closure/invalidate_body called before the section's first cached render freezes "
                        "Cache._def_regions[defname] with the template-level cache_args only; every later render passes those to the "
@@ -55,26 +59,26 @@ def P(n, k="pos", d=""):
     return {"n": n, "k": k, "d": d}
 
 
-def sec(name, kind, cached=True, key="static", pfx="", args=(), buf=False, filt=False, items=(), parent=0, sig=None, kp=None):
+def sec(name, kind, cached=True, key="static", pfx="", args=(), buf=False, filt=False, items=(), parent=0, sig=None, kp=None, reads=False):
     if sig is None:
         sig = [P("x")] if kind in ("def", "ndef") else []
     if kp is None:
         kp = 1 if key in ("arg", "argctx") else 0
     return {"name": name, "kind": kind, "cached": cached, "key": key, "pfx": pfx, "args": [list(a) for a in args],
-            "buf": buf, "filt": filt, "sig": [dict(p) for p in sig], "kp": kp, "items": [dict(i) for i in items], "parent": parent}
+            "buf": buf, "filt": filt, "sig": [dict(p) for p in sig], "kp": kp, "reads": reads, "items": [dict(i) for i in items], "parent": parent}
 
 
 def item(j, arg="", tm=0, how="call", pos=None, kw=()):
     return {"sec": j, "pos": list(pos) if pos is not None else ([arg] if arg else []), "kw": [list(x) for x in kw], "tm": tm, "how": how}
 
 
-def tmpl(uri, targs=(), bf=False, en0=True, cached=False, key="static", pfx="", pargs=(), items=(), secs=(), inh=0, psig=(), pkp=None):
+def tmpl(uri, targs=(), bf=False, en0=True, cached=False, key="static", pfx="", pargs=(), items=(), secs=(), inh=0, psig=(), pkp=None, strict=False, preads=False):
     if pkp is None:
         pkp = 1 if key in ("arg", "argctx") else 0
-    return {"uri": list(uri), "targs": [list(a) for a in targs], "bf": bf, "en0": en0, "inh": inh,
+    return {"uri": list(uri), "targs": [list(a) for a in targs], "bf": bf, "en0": en0, "inh": inh, "strict": strict,
             "isbase": any(i["how"] == "next" for i in items),
             "page": {"cached": cached, "key": key, "pfx": pfx, "args": [list(a) for a in pargs], "sig": [dict(p) for p in psig],
-                     "kp": pkp, "items": [dict(i) for i in items]},
+                     "kp": pkp, "reads": preads, "items": [dict(i) for i in items]},
             "secs": list(secs)}
 
 
@@ -92,22 +96,22 @@ def mc_worlds():
                        sig=[P("a"), P("r", "var"), P("f", "kwd", "D2")], kp=3),
                    sec("outer", "def", cached=False, items=[item(3, "B")]),
                    sec("inner", "ndef", args=[("a", "s:I")], parent=2)]),
-        tmpl(["b", ".", "html"], cached=True, key="argctx", pfx="pg_", psig=[P("pa", "def", "D1"), P("pr", "var"), P("ps", "kwd", "D2")], pkp=3,
+        tmpl(["b", ".", "html"], preads=True, cached=True, key="argctx", pfx="pg_", psig=[P("pa", "def", "D1"), P("pr", "var"), P("ps", "kwd", "D2")], pkp=3,
              items=[item(1, "A")],
              secs=[sec("foo", "def", key="arg", pfx="K1_")]),
     ], passctx=True)
     w2 = world([
-        tmpl(["c", ".", "html"], targs=[("timeout", "i:60")], cached=True, pargs=[("type", "s:file")],
+        tmpl(["c", ".", "html"], strict=True, targs=[("timeout", "i:60")], cached=True, pargs=[("type", "s:file")],
              items=[item(1), item(2), item(3, "V")],
              bf=True,
-             secs=[sec("nb", "nblock", args=[("timeout", "s:3600")], filt=True, buf=True),
+             secs=[sec("nb", "nblock", args=[("timeout", "s:3600")], filt=True, buf=True, reads=True),
                    sec("anon1", "ablock", key="mod", pfx="KM_"),
                    sec("bar", "def", key="ctx", pfx="KS_")]),
     ], passctx=False)
     w3 = world([      # inheritance: the child's page runs inside the (cached) page of the base, each with its own cache
         tmpl(["k", ".", "html"], inh=2, items=[item(1, "V")], secs=[sec("foo", "def", key="ctx", pfx="K1_", args=[("a", "s:C")])]),
-        tmpl(["lay", ".", "html"], targs=[("type", "s:file")], cached=True, pargs=[("timeout", "s:7")],
-             items=[item(1, "A"), item(0, "", how="next")], secs=[sec("foo", "def", args=[("a", "s:L")])]),
+        tmpl(["lay", ".", "html"], strict=True, targs=[("type", "s:file")], cached=True, pargs=[("timeout", "s:7")],
+             items=[item(1, "A"), item(0, "", how="next")], secs=[sec("foo", "def", args=[("a", "s:L"), ("foo", "s:${MK}")], reads=True)]),
     ], passctx=False)
     return [w1, w2, w3]
 
@@ -136,7 +140,8 @@ def finding_worlds():
     bfw = world([tmpl(["q", ".", "html"], bf=True, items=[item(1, "A")],
                       secs=[sec("outer", "def", cached=False, items=[item(2, "A")]),
                             sec("inner", "ndef", buf=True, parent=1)])], passctx=False)
-    return {"ArgsPrecedence": args, "Isolation": iso, "ReplayExact": bfw}
+    names = world([tmpl(["s", ".", "html"], strict=True, items=[item(1)], secs=[sec("anon1", "ablock", reads=True)])], passctx=False)
+    return {"ArgsPrecedence": args, "Isolation": iso, "ReplayExact": bfw, "NamesOnlyOnMiss": names}
 
 
 def probe_worlds():
@@ -172,7 +177,7 @@ def gen_args(rng, profile, p):
     if profile == "rec":
         for n in ARGNAMES:
             if rng.random() < p:
-                out.append([n, "s:" + (rng.choice(TIMEOUTS) if n == "timeout" else rng.choice(ARGVALS[n]))])
+                out.append([n, "s:" + (rng.choice(TIMEOUTS) if n == "timeout" else rng.choice(ARGVALS[n] + (["${MK}"] if n == "foo" else [])))])
         rng.shuffle(out)
     else:
         if rng.random() < p * 2:
@@ -274,19 +279,20 @@ def gen_template(rng, uri, profile, tno):
         name = next(names) if kind != "ablock" else "anon%d" % j
         cached = rng.random() < 0.8
         if kind in ("def", "ndef"):
-            key = rng.choice(["static", "static", "static", "ctx", "arg", "arg", "argctx", "mod"])
+            key = rng.choice(["static", "static", "static", "ctx", "arg", "arg", "argctx", "mod", "lit"])
         else:
-            key = rng.choice(["static", "static", "static", "ctx", "ctx", "mod"])
+            key = rng.choice(["static", "static", "static", "ctx", "ctx", "mod", "lit"])
         pfx = "" if key == "static" else ("KS_" if rng.random() < 0.2 else "K%d_" % j)
         buf = rng.random() < 0.35          # defs and blocks alike (a buffered block returns its text, the call site writes it)
         filt = rng.random() < 0.3
         secs.append(sec(name, kind, cached=cached, key=key, pfx=pfx, args=gen_args(rng, profile, 0.25), buf=buf, filt=filt, parent=parent,
-                        sig=[], kp=0))
+                        sig=[], kp=0, reads=cached and rng.random() < 0.3))
     # parents of nested defs are mostly left uncached so that the nested section is reached
     for s in secs:
         if s["kind"] == "ndef" and rng.random() < 0.6:
             secs[s["parent"] - 1]["cached"] = False
     for s in secs:
+        s["reads"] = s["reads"] and s["cached"]
         if s["kind"] in ("def", "ndef"):
             s["sig"] = gen_sig(rng, s["cached"])
             s["kp"] = pick_kp(rng, s["sig"])
@@ -348,10 +354,11 @@ def gen_template(rng, uri, profile, tno):
     pcached = rng.random() < 0.3
     psig = gen_sig(rng, pcached, page=True)                   # <%page args="pa='D1', *pr, ps='D2'"/>
     pkp = pick_kp(rng, psig)
-    pkey = rng.choice(["static", "ctx", "mod"] + (["arg", "argctx"] if pkp else [])) if pcached else "static"
+    pkey = rng.choice(["static", "static", "ctx", "mod", "lit"] + (["arg", "argctx"] if pkp else [])) if pcached else "static"
     return {"uri": uri, "targs": targs, "bf": rng.random() < 0.4, "en0": rng.random() < 0.85, "inh": 0, "isbase": False,
+            "strict": rng.random() < 0.45,
             "page": {"cached": pcached, "key": pkey, "pfx": "" if pkey == "static" else "pg_", "args": gen_args(rng, profile, 0.2),
-                     "sig": psig, "kp": pkp, "items": page_items},
+                     "sig": psig, "kp": pkp, "reads": pcached and rng.random() < 0.3, "items": page_items},
             "secs": secs}
 
 
@@ -367,7 +374,7 @@ def gen_world(rng, profile):
     if profile != "dogpile" and rng.random() < 0.3:
         # one configuration for all templates: the driver may then configure the TemplateLookup instead of each Template
         for t in tmpls[1:]:
-            t["targs"], t["en0"], t["bf"] = copy.deepcopy(tmpls[0]["targs"]), tmpls[0]["en0"], tmpls[0]["bf"]
+            t["targs"], t["en0"], t["bf"], t["strict"] = copy.deepcopy(tmpls[0]["targs"]), tmpls[0]["en0"], tmpls[0]["bf"], tmpls[0]["strict"]
     # calls across templates: a def of a later template through <%namespace>, or <%include> of a later template (never
     # between templates whose cache ids collide: a section could then reach a section with its own key, see gen_template)
     san = [re.sub(r"\W", "_", "".join(u)) for u in uris]
@@ -436,6 +443,9 @@ def untag(v):
     return v[2:]
 
 
+UTOK = "(u:0:${u}::0)"       # a body that reads the context name u, which a render may leave out
+
+
 def sig_text(sig):
     f = {"pos": "%(n)s", "def": "%(n)s='%(d)s'", "var": "*%(n)s", "kwo": "%(n)s", "kwd": "%(n)s='%(d)s'", "kw": "**%(n)s"}
     return ", ".join(f[p["k"]] % p for p in sig)
@@ -467,6 +477,8 @@ def attrs_of(s, is_page=False):
         a.append('cache_key="%s${%s}_${v}"' % (s["pfx"], x))
     elif s["key"] == "mod":
         a.append('cache_key="%s${MK}"' % s["pfx"])
+    elif s["key"] == "lit":
+        a.append('cache_key="%slit"' % s["pfx"])
     if is_page and s.get("sig"):
         a.append('args="%s"' % sig_text(s["sig"]))
     for n, v in s["args"]:
@@ -490,7 +502,7 @@ def template_text(w, tno=1, uris=None):
         return uris[k - 1] if uris else "/w/t%d" % k
 
     def token(s):
-        return "(%s:${c.tick('%d.%s')}:${v}:%s:%d)" % (s["name"], tno, s["name"], fields_text(s["sig"]), tno)
+        return "(%s:${c.tick('%d.%s')}:${v}:%s:%d)%s" % (s["name"], tno, s["name"], fields_text(s["sig"]), tno, UTOK if s.get("reads") else "")
 
     def call(it, others):
         if it["how"] == "inc":
@@ -532,7 +544,7 @@ def template_text(w, tno=1, uris=None):
     for j, s in enumerate(secs, 1):
         if s["kind"] == "def":
             parts.append('<%%def name="%s(%s)" %s>%s</%%def>\n' % (s["name"], sig_text(s["sig"]), attrs_of(s), body(j, others)))
-    parts.append("(body:${c.tick('%d.body')}:${v}:%s:%d)" % (tno, fields_text(t["page"]["sig"]), tno))
+    parts.append("(body:${c.tick('%d.body')}:${v}:%s:%d)%s" % (tno, fields_text(t["page"]["sig"]), tno, UTOK if t["page"].get("reads") else ""))
     for it in t["page"]["items"]:
         parts.append(call(it, others))
     text = "".join(parts)
@@ -637,7 +649,10 @@ class Driver:
         self.cos = random.Random(hid)
         impl = {"rec": cb.PLUGIN, "beaker-mem": "beaker", "beaker-file": "beaker", "beaker-dbm": "beaker", "dogpile": "dogpile.cache"}[backend]
         self.uris = [self.prefix + "/" + "".join(t["uri"]) for t in w["tmpls"]]
-        conf = [(t["targs"], t["en0"], t["bf"]) for t in w["tmpls"]]
+        conf = [(t["targs"], t["en0"], t["bf"], t["strict"]) for t in w["tmpls"]]
+        opts = {"enable_loop": self.cos.random() < 0.7}                      # (no template uses `loop`)
+        if self.cos.random() < 0.3:
+            opts["imports"] = ["import re as imported_re"]
         self.via_lookup = all(c == conf[0] for c in conf) and self.cos.random() < 0.6
         self.lookup = TemplateLookup()
         for tno, t in enumerate(w["tmpls"], 1):
@@ -660,13 +675,14 @@ class Driver:
                 ckw = {"cache_" + n: x for n, x in targs.items()}           # deprecated spelling
             if self.via_lookup:
                 if tno == 1:
-                    self.lookup = TemplateLookup(cache_impl=impl, buffer_filters=["bf"] if t["bf"] else [],
+                    self.lookup = TemplateLookup(cache_impl=impl, strict_undefined=bool(t["strict"]), buffer_filters=["bf"] if t["bf"] else [], **opts,
                                                  cache_enabled=bool(t["en0"]), **ckw)
                 self.lookup.put_string(self.uris[tno - 1], text)
                 tp = self.lookup.get_template(self.uris[tno - 1])
             else:
                 tp = Template(text, uri=self.uris[tno - 1], lookup=self.lookup, cache_impl=impl,
-                              buffer_filters=["bf"] if t["bf"] else [], cache_enabled=bool(t["en0"]), **ckw)
+                              strict_undefined=bool(t["strict"]), buffer_filters=["bf"] if t["bf"] else [], cache_enabled=bool(t["en0"]),
+                              **opts, **ckw)
                 self.lookup.put_template(self.uris[tno - 1], tp)
             if backend != "rec":
                 tp.cache.impl = cb.RecordingProxy(tp.cache.impl, self.rec)
@@ -756,6 +772,8 @@ class Driver:
             e = dict(o)
             if o["ev"] in ("render", "renderdef"):
                 e["out"], e["execs"] = [["exc:OpTimeout", 0, "", [], 0]], self.execs()
+                if o["ev"] == "render":
+                    e["hasu"], e["raised"] = bool(o.get("hasu", True)), False
             self.rec.take()
             e.update(calls=[{"op": "exc:OpTimeout", "ns": [], "key": ["", ""], "kw": []}], hasstore=False, store=[])
             return e
@@ -772,22 +790,29 @@ class Driver:
         try:
             if ev in ("render", "renderdef"):
                 self.rec.counter = self.counter
+                hasu = ev == "renderdef" or o.get("hasu", True)
+                data = dict(c=self.counter, v=o["c"], **({"u": "ann"} if hasu else {}))
+                if ev == "render":
+                    e["hasu"], e["raised"] = hasu, False
                 try:
                     if ev == "renderdef":
                         sg = next(x["sig"] for x in self.w["tmpls"][t - 1]["secs"] if x["name"] == o["name"])
                         req = {p["n"]: o["arg"] for p in sg if p["k"] == "pos"}
-                        text = tp.get_def(o["name"]).render(c=self.counter, v=o["c"], **req)
+                        text = tp.get_def(o["name"]).render(**data, **req)
                     elif self.cos.random() < 0.3:
                         import io
                         from mako.runtime import Context
                         buf = io.StringIO()
-                        tp.render_context(Context(buf, c=self.counter, v=o["c"]))
+                        tp.render_context(Context(buf, **data))
                         text = buf.getvalue()
                     else:
-                        text = tp.render(c=self.counter, v=o["c"])
+                        text = tp.render(**data)
                     e["out"] = parse_out(text, self.w)
                 except Exception as ex:  # noqa
                     e["out"] = [["exc:" + type(ex).__name__, 0, "", [], 0]]
+                    if ev == "render" and not hasu and isinstance(ex, NameError):
+                        # a look-up of the missing name failed: the history ends here (partial effects are not modelled)
+                        e["raised"], self.dead = True, True
                 e["execs"] = self.execs()
             elif ev == "invbody":
                 tp.cache.invalidate_body()
@@ -845,11 +870,15 @@ def expected_of(st, w):
         return e
     t = last["t"]
     e["t"] = t
+    if op == "raised":
+        return {"ev": "render", "t": t, "c": last["c"], "hasu": False, "raised": True, "out": [["exc:NameError", 0, "", [], 0]]}
     e["calls"] = [{"op": c["op"], "ns": list(c["ns"]), "key": list(c["key"]), "kw": _kw(c["kw"])} for c in (last.get("calls") or [])]
     if op in ("render", "renderdef"):
         if op == "renderdef":
             e["name"], e["arg"] = last["name"], last["arg"]
         e["c"] = last["c"]
+        if op == "render":
+            e["hasu"], e["raised"] = last["h"], False
         e["out"] = [list(x) for x in (last["out"] or [])]
         e["execs"] = [[(st["execs"][k - 1] if isinstance(st["execs"], list) else st["execs"][k])[j] for j in range(len(tt["secs"]) + 1)]
                       for k, tt in enumerate(w["tmpls"], 1)]
@@ -877,7 +906,7 @@ def expected_of(st, w):
     return e
 
 
-CMP_FIELDS = ["out", "execs", "found", "res", "en", "n", "calls", "store"]
+CMP_FIELDS = ["raised", "out", "execs", "found", "res", "en", "n", "calls", "store"]
 
 
 def compare(exp, obs, with_store):
@@ -904,7 +933,7 @@ def replay_behaviour(states, w, backend, hid, scratch, corrupt=None):
             continue
         if corrupt and corrupt[0] == idx:
             corrupt[1](exp)
-        o = {k: exp[k] for k in ("ev", "t", "c", "name", "key", "x", "arg") if k in exp}
+        o = {k: exp[k] for k in ("ev", "t", "c", "name", "key", "x", "arg", "hasu") if k in exp}
         obs = d.op(o)
         hist.append(o)
         f = compare(exp, obs, backend == "rec")
@@ -926,8 +955,8 @@ def cfg(as_coded, ops, invariants, depth=None, xvals="{FALSE, TRUE}"):
     return s
 
 
-STRICT = ["AtMostOncePerKey", "ExecIffMiss", "ReplayExact", "DisabledExecutesAlways", "ArgsPrecedence", "Isolation"]
-WEAK = ["AtMostOncePerKey", "ExecIffMiss", "ReplayExactW", "DisabledExecutesAlways", "ArgsPrecedenceW", "IsolationW"]
+STRICT = ["AtMostOncePerKey", "ExecIffMiss", "ReplayExact", "DisabledExecutesAlways", "ArgsPrecedence", "Isolation", "NamesOnlyOnMiss"]
+WEAK = ["AtMostOncePerKey", "ExecIffMiss", "ReplayExactW", "DisabledExecutesAlways", "ArgsPrecedenceW", "IsolationW", "NamesOnlyOnMissW"]
 
 
 def trace_cfg():
@@ -950,6 +979,8 @@ def keys_of(t):
             ks += [[s["pfx"], a] for a in ["A", "B", "D2"] + CTX_VALS]
         elif s["key"] == "argctx":
             ks += [[s["pfx"], a, c] for a in ["A", "B"] + CTX_VALS for c in CTX_VALS]
+        elif s["key"] == "lit":
+            ks.append([s["pfx"], "lit"])
         else:
             ks.append([s["pfx"], "m"])
     return ks
@@ -963,7 +994,7 @@ def random_history(rng, w, n_ops, allow_set):
         kind = rng.choice(["render"] * 6 + ["renderdef", "invbody", "invdef", "invdef", "invclosure", "invclosure", "inv", "inv", "set", "get", "toggle"])
         if kind == "render":
             if not tt["isbase"]:
-                ops.append({"ev": "render", "t": t, "c": rng.choice(CTX_VALS)})
+                ops.append({"ev": "render", "t": t, "c": rng.choice(CTX_VALS), "hasu": rng.random() < 0.7})
         elif kind == "renderdef":
             names = [s["name"] for s in tt["secs"] if s["kind"] == "def" and not s["buf"] and all(p["k"] not in ("kwo", "kw") for p in s["sig"])]
             if names:
@@ -997,7 +1028,7 @@ def record(w, ops, backend, hid, scratch):
 
 # --------------------------------------------------------------------------- the check
 def ops_of(events):
-    return [{k: x for k, x in e.items() if k in ("ev", "t", "c", "name", "key", "x", "arg")} for e in events]
+    return [{k: x for k, x in e.items() if k in ("ev", "t", "c", "name", "key", "x", "arg", "hasu")} for e in events]
 
 
 def judge_trace(run, t, w, profile, texts, v):
@@ -1109,7 +1140,7 @@ def check(run):
         if mm is None:
             texts = [template_text(w, k)[0] for k in range(1, len(w["tmpls"]) + 1)]
             run.violation(sig, what, {"backend": "rec", "world": w,
-                                      "ops": [dict({k: v for k, v in h.items() if k in ("t", "c", "name", "key")}, ev=h["op"]) for h in hist],
+                                      "ops": ops_of([expected_of(st, w) for st in ce[1:]]),
                                       "templates": texts, "uris": ["".join(t["uri"]) for t in w["tmpls"]],
                                       "source": "TLC counterexample to %s in the code-shaped Cache.tla, reproduced step by step on real templates" % inv})
         else:
@@ -1156,7 +1187,7 @@ def check(run):
         ops = ALL_OPS if profile == "rec" else [o for o in ALL_OPS if o != "set"]
         num = nworlds * per
         simdir = run.subdir("simtr-" + profile)
-        _tlc(run, "MC_Cache", cfg(DEVS, ops, WEAK), name="sim-" + profile, workers=1, simulate="file=%s/tr,num=%d" % (simdir, num),
+        _tlc(run, "MC_Cache", cfg(DEVS, ops, WEAK) + "ACTION_CONSTRAINT RaiseLate\n", name="sim-" + profile, workers=1, simulate="file=%s/tr,num=%d" % (simdir, num),
                 depth=30, timeout=900, count=False, extra_files={"CacheProgs.tla": progs_module(worlds)})
         files = sorted(os.listdir(simdir))
         if len(files) < num:
@@ -1237,8 +1268,8 @@ def check(run):
             traces.append({"id": tid, "pg": len(worlds), "events": ev})
         ncs = []
         for t in traces:
-            rs = [i for i, e in enumerate(t["events"]) if e["ev"] == "render" and e["out"] and e["out"][-1][0] not in "{}<>"]
-            cs = [i for i, e in enumerate(t["events"]) if e["calls"] and e["calls"][0]["kw"]]
+            rs = [i for i, e in enumerate(t["events"]) if e["ev"] == "render" and not e.get("raised") and e["out"] and e["out"][-1][0] not in "{}<>"]
+            cs = [i for i, e in enumerate(t["events"]) if e["calls"] and e["calls"][0]["kw"] and not e.get("raised")]
             if len(rs) >= 2 and cs:
                 b1 = copy.deepcopy(t); b1["id"] = 10 ** 6 + 1
                 b1["events"][rs[-1]]["out"][-1][1] += 1
